@@ -12,7 +12,7 @@ def handle (k : String) (inp : Json) : Option (R Res) :=
   | "c05.stale" => some (conc inp)
   | "c05.coretxn" => some (do
       let n ← getNat inp "new"
-      return { m := Json.mkObj [("completed", Json.bool true), ("accepted", Json.bool true), ("listed", jNat n)], nt := decide (n ≥ 1) })
+      return { m := Json.mkObj [("completed", Json.bool true), ("accepted", Json.bool true), ("listed", jNat n), ("public", jNat 1)], nt := true })
   | "c19.renamerace" => some (conc inp)
   | _ => none
 
